@@ -190,12 +190,12 @@ def printParams (sep : Bytes) : List Param → Bytes
   | [p] => printParam p
   | p :: r => printParam p ++ sep ++ printParams sep r
 
-def kwOf : Kind → Bytes
+def kindKw : Kind → Bytes
   | .fn => kwFn | .sig => kwSig | .prop => kwProp
 
 /-- one action line: "\t<kw> <name>(<params>) [-> <type> ]//uid:<n>\n" -/
 def printAction (a : Action) : Bytes :=
-  [9] ++ kwOf a.kind ++ [32] ++ a.name ++ [40] ++ printParams (sepOf a.kind) a.params ++ [41, 32] ++
+  [9] ++ kindKw a.kind ++ [32] ++ a.name ++ [40] ++ printParams (sepOf a.kind) a.params ++ [41, 32] ++
     (match a.ret with | some t => [45, 62, 32] ++ printT t ++ [32] | none => []) ++
     [47, 47, 117, 105, 100, 58] ++ digitsOf a.uid ++ [10]
 
